@@ -880,6 +880,71 @@ def run_setstate(w) -> None:
             loaded.unload()
 
 
+FAILED_INIT_SOURCE = '''
+import icontract
+
+
+@icontract.invariant(lambda self: HUB.inv("positive", self) and self.x > 0)
+class Account{base}:
+    def __init__(self, x, fail=None):
+        self.x = x
+        if fail is not None:
+            raise fail
+
+    def __setstate__(self, state):
+        self.x = state["x"]
+        if state.get("fail") is not None:
+            raise state["fail"]
+
+    def withdraw(self, amount):
+        self.x -= amount
+        return self.x
+'''
+
+
+def run_failed_construction(w) -> None:
+    """A constructor (or __setstate__) whose body raises: the very same object initialised again, and the objects constructed
+    afterwards (which often get the address of the abandoned one), are checked like any other."""
+    import icontract  # pylint: disable=import-outside-toplevel
+
+    for base in ("", "(icontract.DBC)"):
+        loaded = prog.load_source(FAILED_INIT_SOURCE.format(base=base), w.scratch())
+        mod, hub = loaded.module, loaded.hub
+        try:
+            for how in ("init", "setstate"):
+                obj = mod.Account.__new__(mod.Account)
+                try:
+                    if how == "init":
+                        obj.__init__(1, fail=ValueError("body failed"))
+                    else:
+                        obj.__setstate__({"x": 1, "fail": ValueError("body failed")})
+                except ValueError:
+                    pass
+                for tag, op, want in (
+                        ("same-object-initialised-again-invalid", lambda: obj.__init__(-5), "violation"),
+                        ("same-object-initialised-again-valid", lambda: obj.__init__(5), "returned"),
+                        ("method-on-that-object-breaking-the-invariant", lambda: obj.withdraw(100), "violation"),
+                        ("fresh-objects-invalid", lambda: [mod.Account(-1) for _ in range(1)], "violation"),
+                        ("fresh-objects-valid-then-broken", lambda: [mod.Account(10).withdraw(100) for _ in range(1)], "violation")):
+                    hub.reset()
+                    try:
+                        op()
+                        outcome = "returned"
+                    except icontract.ViolationError:
+                        outcome = "violation"
+                    except BaseException as err:  # pylint: disable=broad-except
+                        outcome = "raise {}: {}".format(type(err).__name__, str(err)[:120])
+                    w.count("operations")
+                    w.count("failed_construction_followups")
+                    w.case(("failed-construction", how, tag, base))
+                    if outcome != want:
+                        w.violation("C03/object-unchecked-after-a-constructor-body-raised", "after {} raised in its body ({}): {} {} (expected {}); invariant "
+                                    "evaluations {}".format("__init__" if how == "init" else "__setstate__", base or "plain class", tag, outcome, want,
+                                                            [e.id for e in hub.events if e.kind == "inv"]), {"failed_construction": how, "base": base})
+        finally:
+            loaded.unload()
+
+
 def run_factory_new(w) -> None:
     """__new__ of a class without __init__ acting as a factory for its subclasses (which may have constructors)."""
     # (only on the contract-inheriting base: invariants on plain subclasses of invariant-carrying classes are a silent zone)
@@ -930,6 +995,7 @@ def run(w) -> None:
         run_sibling_new(w)
         run_aliased_members(w)
         run_setstate(w)
+        run_failed_construction(w)
     n = 12000 if w.tier == "thorough" else 1200
     flavours = ["plain", "plain", "plain", "slots", "dataclass", "frozen", "own-new", "namedtuple"]
     for i in range(n):
@@ -966,6 +1032,9 @@ def replay(case, w) -> None:
         return
     if "setstate" in case:
         run_setstate(w)
+        return
+    if "failed_construction" in case:
+        run_failed_construction(w)
         return
     plans = plans_from_json(case["plans"])
     oracle = Oracle(plans)
